@@ -34,6 +34,20 @@ theorem C03_bounded_parses (o : Nat → Bool) (ci : Nat → Nat) (B : Nat) (hci 
   rw [Nat.mul_assoc]
   exact this
 
+/-- THE BUDGET IS ENOUGH FOR WELL-FORMED INPUT (the other side of the cap): the retry counter starts at `budget L`
+(translated from the source, L = number of lines).  Every bare segment that is not valid Python costs one round of the loop and
+the accepting parse one more, so an input of L lines with at most two such segments per line needs 2·L + 1 rounds — never more
+than the budget.  Lowering the initial value (e.g. to `L + 10`) breaks this obligation. -/
+theorem C03_budget_suffices (L : Nat) : 2 * L + 1 ≤ Gen.TryParse.budget L := Gen.TryParse.budget_ok L
+
+/-- …and with that budget the bound of C03_bounded_parses is a function of the input's size alone -/
+theorem C03_bounded_parses_of_lines (o : Nat → Bool) (ci : Nat → Nat) (L : Nat) (hci : ∀ k, ci k ≤ Gen.TryParse.budget L) :
+    (parseOuter o ci Gen.TryParse.tryParseSkel Gen.TryParse.parserCall (Gen.TryParse.budget L + 1)).2.1
+      ≤ 2 * Gen.TryParse.budget L * (1 + 2 * Gen.TryParse.budget L) :=
+  (C03_bounded_parses o ci (Gen.TryParse.budget L) hci).2.2
+
+example : Gen.TryParse.budget 10 ≥ 21 := by decide
+
 /-- the outer function really is two attempts of `_try_parse` (what `ctxFree` models) -/
 theorem C03_outer_shape :
     (Gen.TryParse.outerSkel == outerExpected && noRec Gen.TryParse.outerPre
